@@ -208,6 +208,16 @@ def c07(tier):
     return [st('subsets-2..6', 2, 6, timeout=3600), st('subsets-6..12-simulated', 6, 12, timeout=300, simulate=10000000, depth=14)]
 
 
+def c20(tier):
+    o = 'alias=C20'
+    def st(label, maxlen, templates, types, timeout=1200):
+        return dict(kind='gen', module='Gen_Opaque', label=label, props='C01,C03,C04,C12,C15,C14', opts=o, timeout=timeout, check_count=False,
+                    constants=dict(MaxLen=maxlen, Templates=templates, TypeSet=types), invariants=['LawFailsIffEmpty', 'Emit'])
+    if tier == 'quick':
+        return [st('one-step-all-types', 1, 'all', 'all'), st('two-steps-six-types', 2, 'few', 'six')]
+    return [st('two-steps-all-types', 2, 'all', 'all', 7200)]
+
+
 def c02(tier):
     cn = dict(kind='tlc', module='CmpNormalize', label='cmp-normalize-terminates', constants=dict(AsCoded=False),
               invariants=['BuiltRight', 'AtMostOneSwap'], properties=['Terminates'], timeout=120, workers=1)
@@ -227,6 +237,7 @@ def c17(tier):
 
 
 CHECKS = {
+    'C20': dict(stages=c20, level='model_checking'),
     'C01': dict(stages=c01, level='model_checking'),
     'C02': dict(stages=c02, level='model_checking'),
     'C03': dict(stages=simple_sel('C03', ['LawFailsIffEmpty'], extra=[lambda: SLICES('C03'), lambda: traceB_eval(4000, 200000, 'C03', EVAL_ATTR)]), level='model_checking'),
